@@ -215,4 +215,6 @@ pub fn run(run: &Run) {
     run.add("object_cache_hits", totals.oh.load(Ordering::Relaxed)); run.add("object_cache_misses", totals.om.load(Ordering::Relaxed));
     run.add("stream_cache_hits", totals.sh.load(Ordering::Relaxed)); run.add("stream_cache_misses", totals.sm.load(Ordering::Relaxed));
     if totals.oh.load(Ordering::Relaxed) == 0 || totals.sh.load(Ordering::Relaxed) == 0 { run.inconclusive("no cache hit observed at all".into()); }
+    // thorough: the same quick workload once more under the AddressSanitizer build (memory errors in the library or its dependencies)
+    if !run.quick() { crate::lanes::asan_rerun(run); }
 }
